@@ -39,6 +39,20 @@ def score_all(pdb2sql, dp, rp, enforce, measures=MEASURES):
                     if isinstance(e, (KeyboardInterrupt, MemoryError)): raise
                     res = ['ERR', exc_class(e)]
         out[m] = res
+    if enforce:
+        # enforcement on, the per-call check switched off: the residues are still compared (enforcement decides), so a
+        # reordered decoy gives the same value or an explicit error here too
+        for r in ('irmsd_fast', 'lrmsd_fast'):
+            if r in measures:
+                out[r + '_nocheck'], _ = SC.call(pdb2sql, r, dp, rp, enforce, method='svd', check=False)
+    if 'irmsd_fast' in measures:
+        # the zone written to a file by one call and read back by the next (residue numbers as they are in these files)
+        zf = dp + '.izone'
+        for f in (zf,):
+            if os.path.exists(f): os.remove(f)
+        SC.call(pdb2sql, 'irmsd_fast', dp, rp, enforce, method='svd', zonefile=zf)
+        out['irmsd_fast_zonefile'], _ = SC.call(pdb2sql, 'irmsd_fast', dp, rp, enforce, method='svd', zonefile=zf)
+        if os.path.exists(zf): os.remove(zf)
     # derived scores
     try:
         if all(out[k][0] == 'OK' for k in ('fnat_fast', 'lrmsd_fast', 'irmsd_fast')):
@@ -113,7 +127,8 @@ def variants(rng, ref, decoy):
 def compare(base, var, tol, measures, permutation):
     """returns list of (measure, why) where the variant's score differs from the original's"""
     bad = []
-    keys = list(measures) + ([k for k in ('capri', 'dockq') if set(('fnat_fast', 'lrmsd_fast', 'irmsd_fast')) <= set(measures)])
+    keys = list(measures) + ([k for k in ('capri', 'dockq') if set(('fnat_fast', 'lrmsd_fast', 'irmsd_fast')) <= set(measures)]) \
+        + [k for k in ('irmsd_fast_nocheck', 'lrmsd_fast_nocheck', 'irmsd_fast_zonefile') if k in base and k[:10] in measures]
     for m in keys:
         b, v = base.get(m), var.get(m)
         if b is None or v is None:
@@ -205,7 +220,7 @@ def explore(ctx, tier, rng, search=False):
             rep.hashes.add(hashlib.sha1(json.dumps([name, enforce, case['ref'][:3]], default=str).encode()).hexdigest())
             for m, why in bad:
                 rep.mismatch('impl_vs_spec', sub, why=f'{m} changed under {name}: {why}', measure=m, variant=name, enforce=enforce,
-                             fast_route=m.endswith('_fast') and 'rmsd' in m, relative_order_differs=reldiff,
+                             fast_route=('_fast' in m and 'rmsd' in m), relative_order_differs=reldiff,
                              derived=(m in ('capri', 'dockq')))
         # tie: the models of C07 on one transformed input
         v = rng.choice(case['variants'])
